@@ -421,11 +421,19 @@ var miscDecls = []string{
 func runMisc(c *core.Check) {
 	name := "tokens/misc-declarations"
 	st := c.Family(name)
-	st.Bound = fmt.Sprintf("%d hand-written declarations (IE filters, integer properties, !important spellings, var(), calc(), vendor hacks) x 4 configurations", len(miscDecls))
+	st.Bound = fmt.Sprintf("%d hand-written declarations (IE filters, integer properties, !important spellings, var(), calc(), vendor hacks), each also with !important in two spellings, x 4 configurations", len(miscDecls))
 	for i, d := range miscDecls {
 		cases, nt := checkDecl(c, name, d, uint64(i))
 		c.Count(cases)
 		c.AddFamily(name, cases, nt)
+		if !strings.Contains(d, "!") && !strings.HasSuffix(strings.TrimSpace(d), ";") && !strings.HasSuffix(strings.TrimSpace(d), ":") && !strings.Contains(d, "\\9") {
+			// every rewrite must carry the priority along
+			for j, imp := range []string{"!important", " ! IMPORTANT"} {
+				cases, nt := checkDecl(c, name, d+imp, uint64(len(miscDecls)*(j+1)+i))
+				c.Count(cases)
+				c.AddFamily(name, cases, nt)
+			}
+		}
 	}
 }
 
